@@ -27,18 +27,18 @@ use crate::{
 // ---- driver ------------------------------------------------------------------
 
 pub fn observe(case: &Case, dir: &Path) -> Sexp {
-    guarded(|| {
-        let in_dir = dir.join("in");
-        let out_dir = dir.join("out");
+    let in_dir = dir.join("in");
+    let out_dir = dir.join("out");
+    let obs = guarded(|| {
         if let Err(e) = write_inputs(case, &in_dir, &out_dir) {
-            return tagged("err", [st(first_200(&format!("harness: {e:#}")))]);
+            return tagged("err", [st(format!("harness: {e:#}"))]);
         }
         let result = {
             let _hook = HookGuard::install(case);
             pyxis::build(&in_dir, &out_dir, case.ps)
         };
         match result {
-            Err(e) => tagged("err", [st(first_200(&format!("{e:#}")))]),
+            Err(e) => tagged("err", [st(format!("{e:#}"))]),
             Ok(()) => {
                 let mut files = vec![];
                 collect_files(&out_dir, "", &mut files);
@@ -49,7 +49,20 @@ pub fn observe(case: &Case, dir: &Path) -> Sexp {
                 )
             }
         }
-    })
+    });
+    // Error and panic texts must not mention the per-process scratch directory.
+    match (obs.head(), &obs) {
+        (Some(head @ ("err" | "panic")), Sexp::List(items)) => match items.get(1) {
+            Some(Sexp::Str(text)) => {
+                let text = text
+                    .replace(&in_dir.display().to_string(), "<in>")
+                    .replace(&out_dir.display().to_string(), "<out>");
+                tagged(head, [st(first_200(&text))])
+            }
+            _ => obs,
+        },
+        _ => obs,
+    }
 }
 
 fn write_inputs(case: &Case, in_dir: &Path, out_dir: &Path) -> anyhow::Result<()> {
@@ -266,8 +279,15 @@ fn classify_attrs(attrs: &[Attribute], allowed: &[&str]) -> Option<Attrs> {
                     if piece.is_empty() {
                         return None;
                     }
-                    out.repr
-                        .push(piece.to_string().split_whitespace().collect::<String>());
+                    // `C`, `packed`, `align(8)`, `u32`, `crate::m::T`: tokens without blanks;
+                    // any other type (pyxis puts the enum base type here): its TY string.
+                    out.repr.push(if syn::parse2::<Meta>(piece.clone()).is_ok() {
+                        piece.to_string().split_whitespace().collect::<String>()
+                    } else if let Ok(t) = syn::parse2::<Type>(piece.clone()) {
+                        ty_str(&t)
+                    } else {
+                        piece.to_string()
+                    });
                 }
             }
             "default" => {
